@@ -56,7 +56,7 @@ Variable sch : schema.
 (* operations that neither remove records, nor replace the list, nor rewrite identifiers *)
 Definition benign (o : op) : Prop :=
   match o with
-  | Get _ | Scan _ | Changed | Save => True
+  | Get _ | Scan _ | Changed | Save | SaveFault | LoadFault => True
   | SetF _ _ key _ => key <> "identifier"
   | Update _ | Remove _ | Load | Fresh => False
   end.
@@ -119,6 +119,8 @@ Proof.
   - pose proof (handles_ok_set_field h0 sec key v st HO). pose proof (found_set_field ids h h0 sec key v st B F).
     now destruct (set_field sch h0 sec key v st) as [[?|?] ?].
   - destruct k; simpl; [now split|]. destruct (changed sch st); now split.
+  - destruct k; simpl; [now split|]. destruct (changed sch st); now split.
+  - destruct k; simpl; [now split|]. destruct (file st); now split.
   - now split.
   - pose proof (handles_ok_get c st HO). pose proof (found_get ids h c st HO F).
     now destruct (get_settings sch c st) as [[?|?] ?].
